@@ -21,7 +21,7 @@ def run(chk):
     # (closes at the high / low: clv = +-1), untraded stretches (runs of zero-volume bars) and small windows
     for name in RANGED:
         if name not in special:
-            files += indfam.record(chk, yv, "c12", 1 if quick else 4, 8, 140 if quick else 500, only=name, range_regimes=True)
+            files += indfam.record(chk, yv, "c12", 2 if quick else 6, 9, 140 if quick else 500, only=name, range_regimes=True)
     for name in special:
         files += indfam.record(chk, yv, "c12", 2 if quick else 6, 6, 200 if quick else 600, only=name, force_drop=True)
         # the recorded witness of the finding (its configuration on a scripted stream: volatile, scale drop, exactly flat, volatile)
